@@ -148,11 +148,15 @@ def send (s : State) (r : Req) (draws : List Id) : Outcome (State × SendResult)
 
 /-! ### `poll_next` -/
 
-/-- `drop_cancelled` for one entry: `(keep?, entry', callers')` -/
+/-- `ActiveRequest::is_canceled`: `completion.is_closed()` -/
+def isCanceled (cs : List Caller) (r : Req) : Bool :=
+  match cs.find? (·.req == r) with
+  | some c => c.chan.rxClosed
+  | none => true
+
+/-- `drop_cancelled` for one entry: `(keep?, callers')` -/
 def dropOne (now timeout : Nat) (cs : List Caller) (a : Active) : Option Active × List Caller :=
-  let canceled := match cs.find? (·.req == a.req) with
-    | some c => c.chan.rxClosed
-    | none => true
+  let canceled := isCanceled cs a.req
   let dl := a.deadline.getD (now + timeout)
   if now ≥ dl then (none, updChan cs a.req (·.completeWithError .errTimeout))
   else if canceled then (none, updChan cs a.req (·.completeWithError .errOther))
